@@ -111,6 +111,13 @@ func nonInterferencePart(name string, quick, thorough int) sup.Part {
 				}
 			}
 		}
+		if (c.Local/4)%2 == 1 {
+			// an index over a body property is created on a sibling collection of the busy bucket: an operation addressed
+			// to that collection, which must change nothing c0 returns or accepts (raw, non-JSON bodies included)
+			if err := busy.Env.Buckets[0].Colls[0][1].CreateIndex("ix_n", "body->>'$.n'", ""); err == nil {
+				c.Count("indexes_created_on_a_sibling_collection", 1)
+			}
+		}
 		g := &kv.Gen{R: r, Keys: []string{"k0", "k1", "k2", "k3"}, Colls: cfg.Colls, Bkts: 1, Hnd: cfg.Handles}
 		steps := 50
 		if c.Tier == "thorough" {
